@@ -1418,6 +1418,19 @@ def frag_bool(rng, d, div="all", opnds="all"):
             # the LIKE family over string-valued operands, with or without escape=
             return [rng.choice(LIKES), frag_str(rng, rng.randint(0, 2), div, opnds), frag_str(rng, rng.randint(0, 2), div, opnds),
                     rng.choice([None, None, "/", "!", "a"])]
+        if x < 0.68:
+            # BETWEEN over numeric trees (arithmetic bounds: their operators lie above BETWEEN)
+            return ["between", frag_num(rng, rng.randint(0, 2), div), frag_num(rng, rng.randint(0, 2), div),
+                    frag_num(rng, rng.randint(0, 2), div)]
+        if x < 0.8:
+            # IN / NOT IN with a non-empty list of literals (NULL allowed: three-valued)
+            n = rng.choice([1, 2, 3, 4])
+            if rng.random() < 0.7:
+                return [rng.choice(["in", "notin"]), frag_num(rng, rng.randint(0, 2), div),
+                        [rng.choice(INT_LITS + [None]) for _ in range(n)]]
+            # (string-typed left side: the list values take the left operand's type)
+            return [rng.choice(["in", "notin"]), frag_str(rng, rng.randint(0, 2), div, "str"),
+                    [rng.choice(STR_LITS + [None]) for _ in range(n)]]
         return [rng.choice(CMP), frag_num(rng, rng.randint(0, 2), div), frag_num(rng, rng.randint(0, 2), div)]
     k = rng.choice(["and", "or", "not", "and", "or"])
     if k == "not":
